@@ -1739,6 +1739,13 @@ static void gen_heap_maxalloc(rng &r, int ncases)
             else g.rr((size_t)r.below(g.live.size()), (size_t)r.below(lim / 3 + 2));
         }
         // slots whose malloc failed are NULL for the harness: free(NULL)
+        {
+            // sizes around 2^16 / 2^31 / 2^32: far beyond the arena, must fail cleanly (a narrowed size computation would not)
+            static const std::vector<size_t> wide = {65535, 65536, 65537, 2147483647ull, 2147483648ull, 4294967295ull, 4294967296ull, 4294967297ull, 4294967304ull, 4294967360ull};
+            size_t w1 = r.pick(wide), w2 = r.pick(wide);
+            if (w1 + 8 > lim) printf("m 904 %zu\nf 904\n", w1);
+            if (w2 + 8 > lim && !g.live.empty()) g.rr((size_t)r.below(g.live.size()), w2);
+        }
         g.free_all(c % 3);
         printf("m 901 %zu\n", maxreq + 1 + (size_t)r.below(64)); // one word too many: NULL, nothing changes
         printf("m 902 %zu\n", maxreq - (size_t)r.below(64));     // the maximal request: must succeed
@@ -2082,6 +2089,11 @@ static void gen(rng &r, const std::string &tier)
     {
         gen_pool_case(r, i % 2, 8 * (size_t)r.range(1, 8), (size_t)r.range(1, 33));
     }
+    // capacities around 2^8 (igris::pool: `int _count`, iterator index `int _num`), and one pool of 2^16 + 1 cells
+    for (size_t cap : {255, 256, 257})
+        if (th || cap == 255 + g_seed % 3) gen_pool_case(r, true, 8, cap);
+    if (th) gen_pool_case(r, false, 8, 256);
+    puts("reset ipool 8 65537\nsz\ng\ng\nca 65536\nca 65535\nca 65537\nca 0\np 524288\ng\np 524288\np 524280\nsz");
     // element sizes that are not a multiple of the pointer size (the link is then stored
     // misaligned, which the host tolerates): arena and capacity clauses still apply
     for (size_t e : {12, 20, 28, 36, 44})
